@@ -1,5 +1,6 @@
 // C15 implementation driver, all inside a fresh mkdtemp directory under /tmp (removed at exit).
 //   D <alloc 1|0> <setup> <path>    zix_create_directories; setup = '-' | comma list of d:<rel> / f:<rel>
+//                                    or l:<rel>=<target> (symbolic link; then only the observable part is printed)
 //                                    (relative to the case directory <base>/w, which is the cwd);
 //                                    path: '~' = empty, a leading '@' = absolute path of the case directory
 //   E <a> <b> <rel D|P|H|L> <al1> <al2> <errno0> <script>   zix_file_equals; a, b = bytes | M (missing)
@@ -360,10 +361,24 @@ main(void)
 
     if (n == 4 && !strcmp(tok[0], "D")) {
       int bad = 0;
+      int has_links = 0;
       if (strcmp(tok[2], "-")) {
         char* save = NULL;
         for (char* t = strtok_r(tok[2], ",", &save); t; t = strtok_r(NULL, ",", &save)) {
-          bad |= mk_parents_and(t + 2, t[0] == 'd');
+          if (t[0] == 'l') { // l:<rel>=<target>: a symbolic link (not part of the proved abstract file system)
+            char* eq = strchr(t, '=');
+            char  p[256];
+            if (!eq) {
+              bad = 1;
+              continue;
+            }
+            *eq = 0;
+            snprintf(p, sizeof(p), "%s/%s", casedir, t + 2);
+            bad |= symlink(eq + 1, p);
+            has_links = 1;
+          } else {
+            bad |= mk_parents_and(t + 2, t[0] == 'd');
+          }
         }
       }
       char path[PATH_MAX];
@@ -393,7 +408,8 @@ main(void)
       const ZixStatus again = zix_create_directories(&track.base, path);
       char*           tree2 = tree_listing();
       printf("st= %s isdir= %d again= %s same= %d fds= %d leak= %d || %s tree=%s\n", status_name(st), isdir,
-             status_name(again), !strcmp(tree1, tree2), fds1 - fds0, leak, vw_log_len ? vw_log : "-", tree1);
+             status_name(again), !strcmp(tree1, tree2), fds1 - fds0, leak,
+             has_links ? "symlinks" : vw_log_len ? vw_log : "-", has_links ? "-" : tree1);
       free(tree1);
       free(tree2);
     } else if (n == 8 && !strcmp(tok[0], "E")) {
